@@ -287,24 +287,26 @@ func c17Run(t *engine.T, shard string) {
 }
 
 type c17Item struct {
-	kind string // def | use
-	name string
-	data bool
-	dflt bool
+	kind  string // def | use
+	name  string
+	data  bool
+	dflt  bool
+	inner string // "" | for | fn : the use sits inside a for / user-function body and is followed by that scope's variable
 }
 
 func c17Content(t *engine.T) {
 	var items []c17Item
 	for _, n := range []string{"c1", "c2"} {
-		items = append(items, c17Item{"def", n, false, false}, c17Item{"def2", n, false, false})
+		items = append(items, c17Item{"def", n, false, false, ""}, c17Item{"def2", n, false, false, ""})
 	}
 	for _, n := range []string{"c1", "c2", "zz"} {
 		for _, d := range []bool{false, true} {
 			for _, df := range []bool{false, true} {
-				items = append(items, c17Item{"use", n, d, df})
+				items = append(items, c17Item{"use", n, d, df, ""})
 			}
 		}
 	}
+	items = append(items, c17Item{"use", "c1", true, false, "for"}, c17Item{"use", "c1", false, false, "fn"}, c17Item{"use", "c2", true, true, "for"})
 	blockOf := map[string]string{"def": `[<%= v %>|<%= if (n) { %><%= n %><% } %>|<%= tick() %>]`, "def2": `{second <%= if (n) { %><%= n %><% } %>}`}
 	dflt := `(default <%= if (n) { %><%= n %><% } %><%= v %>)`
 	var rec func(seq []c17Item)
@@ -322,11 +324,17 @@ func c17Content(t *engine.T) {
 					if it.data {
 						d = fmt.Sprintf(`, {"n": "N%d&"}`, i)
 					}
+					use := `<%= contentOf("` + it.name + `"` + d + `) %>`
 					if it.dflt {
-						sb.WriteString(`<%= contentOf("` + it.name + `"` + d + `) { %>` + dflt + `<% } %>`)
-					} else {
-						sb.WriteString(`<%= contentOf("` + it.name + `"` + d + `) %>`)
+						use = `<%= contentOf("` + it.name + `"` + d + `) { %>` + dflt + `<% } %>`
 					}
+					switch it.inner {
+					case "for":
+						use = `<%= for (z) in xs { %>` + use + `<%= z %>;<% } %>`
+					case "fn":
+						use = `<% let uf = fn(p) { %>` + use + `<%= p %>;<% } %><%= uf("P") %>`
+					}
+					sb.WriteString(use)
 				}
 			}
 			src := sb.String() + "end"
@@ -359,11 +367,24 @@ func c17Content(t *engine.T) {
 						if fails {
 							break
 						}
+						if !ok && it.inner == "for" {
+							// the default block runs in a child of the call-site scope (inside the loop)
+							ch.Set("z", "a")
+						}
 						s, rerr := Render(body, ch)
 						if rerr != nil {
 							return "", engine.Failf("harness", "reference body failed: %v", rerr)
 						}
-						want.WriteString(s)
+						switch it.inner {
+						case "for":
+							// two iterations (xs = a, b); the stored block does not see the loop variable
+							s2, _ := Render(body, ch)
+							want.WriteString(s + "a;" + s2 + "b;")
+						case "fn":
+							want.WriteString(s + "P;")
+						default:
+							want.WriteString(s)
+						}
 					}
 					if fails {
 						break
@@ -389,6 +410,15 @@ func c17Content(t *engine.T) {
 		}
 		if len(seq) == 4 {
 			return
+		}
+		// a program whose last item already fails the render is not extended further
+		defined := map[string]bool{}
+		for _, it := range seq {
+			if it.kind != "use" {
+				defined[it.name] = true
+			} else if !defined[it.name] && !it.dflt {
+				return
+			}
 		}
 		for _, it := range items {
 			rec(append(seq[:len(seq):len(seq)], it))
